@@ -191,5 +191,5 @@ func tableChecksC09(P *Program, tier string) []extraResult {
 }
 
 func init() {
-	propSpecs["C09"].extra = append(propSpecs["C09"].extra, tableChecksC09)
+	extraChecks["C09"] = append(extraChecks["C09"], tableChecksC09)
 }
